@@ -185,11 +185,11 @@ def run_real(spec, mods, mol, processor=None, via_system=False):
     top_len = [None]
     orig_identify, orig_cover, orig_nx = canmod.identify_ptms, canmod._cover_graph, canmod.nx
 
-    def cover_wrap(graph, to_cover, fragments):
+    def cover_wrap(graph, to_cover, fragments, *rest, **kw):
         depth[0] += 1
         RecGM.in_cover += 1
         try:
-            out = orig_cover(graph, to_cover, fragments)
+            out = orig_cover(graph, to_cover, fragments, *rest, **kw)
         finally:
             depth[0] -= 1
             RecGM.in_cover -= 1
@@ -573,25 +573,59 @@ def oracle(spec, mods, mol0, mol, run):
 F6_KNOWN = any(k.get('id') == 'F-C14-6' and k.get('status') == 'known' for k in chk.known)
 
 
-def f6_signature(spec, mol, run):
-    """F-C14-6: a flagged atom that belongs to a group annotated on the input, whose iteration failed while
-    the annotation itself explained the atom (the set of the group is emptied in place before the cover search
-    fails on another group): the atom stays, named by no warning, unlabelled by this run."""
+def f6_atoms(spec, mol, run):
+    """F-C14-6: the flagged atoms that belong to a group annotated on the input whose iteration FAILED, and that
+    stay in the molecule named by no warning (the annotation itself explained them: the set of the group is
+    emptied in place before the cover search fails on another group) - kept, unwarned, unlabelled by this run."""
     if run['status'] != 'ok':
-        return False
+        return set()
     annot = {k: ml for k, r, p, h, ml, at in spec['atoms']}
     flagged = {k for k, r, p, h, ml, at in spec['atoms'] if p}
     warned = set()
     for w in warnings_of(run):
         warned.update(w['atoms'] or [])
+    placed = set()
+    for it in run['iters']:
+        for _, pl in (it['used'] or []) + (it['result'] or []):
+            placed.update(a for a, _ in pl)
+    out = set()
     for it in run['iters']:
         if it['result'] is not None:
             continue
         for g in it['groups']:
             if any(annot.get(a) for a in g[0]):
-                if any(a in flagged and a in mol.nodes and a not in warned for a in g[0]):
-                    return True
-    return False
+                out |= {a for a in g[0] if a in flagged and a in mol.nodes and a not in warned and a not in placed}
+    return out
+
+
+_F6_MSG = re.compile(r'^flagged atom (-?\d+) is silently kept: ')
+
+
+def split_f6(errs, atoms):
+    """(errors that stand, errors that are exactly the known finding F-C14-6): only the clause `silently kept`
+    about an atom that satisfies the signature is attributed to the finding"""
+    real, known = [], []
+    for e in errs:
+        m = _F6_MSG.match(e)
+        (known if m and int(m.group(1)) in atoms else real).append(e)
+    return real, known
+
+
+def case_f6(cid, inp, impl, model, real, known, nontriv):
+    """register a case whose oracle errors were split by split_f6"""
+    chk.case(cid, inp, impl, model, real, nontriv)
+    if known:
+        chk.count('finding_F-C14-6_signature')
+        if F6_KNOWN:
+            for msg in known:
+                chk.failures.append({'case': cid, 'input': inp, 'impl': impl, 'oracle': msg, 'finding': 'F-C14-6'})
+        elif cid.startswith('corpus-f6'):
+            # the pinned witness while the finding is not listed in known_findings.json: model and real code are
+            # compared (Lean: annotated_flagged_kept_witness), the oracle failure is recorded as a count only
+            chk.count('finding_F-C14-6_witness_oracle_errors=%d' % len(known))
+        else:
+            for msg in known:
+                chk.failures.append({'case': cid, 'input': inp, 'impl': impl, 'oracle': msg, 'finding': None})
 
 
 def spec_mods_of(spec, a):
@@ -718,6 +752,7 @@ def gen_case(rng):
         rid += rng.choice([1, 1, 1, 2])
     hist = []
     pre_done = set()
+    pre_used = {}
     natt = rng.choice([0, 1, 1, 2, 2, 3])
     all_L = lib_fixed()
     for _ in range(natt):
@@ -751,14 +786,16 @@ def gen_case(rng):
         # applied through `modify`: canonical names, pre-labelled (only patterns with distinct atom names:
         # apply_mod_to_block works on one block whose atom names are unique)
         pre = rng.random() < 0.08 and src in lib and len({a[2]['atomname'] for a in matoms}) == len(matoms)
-        if pre and (src, ri) in pre_done:
-            # the same modification annotated twice on one residue would give two atoms of one residue the same
+        pre_names = {a[2]['atomname'] for a in ptm_m}
+        if pre and ((src, ri) in pre_done or pre_names & pre_used.setdefault(ri, set())):
+            # the same modification (or one sharing names of added atoms) annotated twice on one residue would give two atoms of one residue the same
             # name: outside the contract of fix_ptm (atom names are correct, i.e. unique per residue) - the
             # attachment is generated as an ordinary flagged one instead
             pre = False
             hist.append('excluded_same_annotation_twice')
         if pre:
             pre_done.add((src, ri))
+            pre_used.setdefault(ri, set()).update(pre_names)
         foreign = rng.random() < 0.05
         for a in ptm_m:
             attrs = A(a[2]['atomname'] if pre else 'X%d' % key, a[2]['element'],
@@ -1171,16 +1208,8 @@ for j, (cid, spec, mods, mol0, mol, run) in enumerate(meta):
     for h in spec.get('hist', []):
         chk.count('attach_' + h)
     chk.count('candidates=%s' % ('0' if ncand == 0 else '1' if ncand == 1 else '2-5' if ncand <= 5 else '6+'))
-    f6 = f6_signature(spec, mol, run)
-    if f6:
-        chk.count('finding_F-C14-6_signature')
-    if f6 and not F6_KNOWN and cid.startswith('corpus-f6'):
-        # the pinned witness of F-C14-6 while the finding is not yet listed in known_findings.json: model and
-        # real code are compared (both keep the flagged atom unlabelled; Lean: annotated_flagged_kept_witness),
-        # the oracle failure is recorded as a count only
-        chk.count('finding_F-C14-6_witness_oracle_errors=%d' % len(errs))
-        errs = []
-    chk.case(cid, lines[2 * j], impls[2 * j], models[2 * j], errs, nontriv, finding='F-C14-6' if f6 else None)
+    real, known = split_f6(errs, f6_atoms(spec, mol, run))
+    case_f6(cid, lines[2 * j], impls[2 * j], models[2 * j], real, known, nontriv)
     chk.case(cid + '-groups', lines[2 * j + 1], impls[2 * j + 1], models[2 * j + 1], [], nflag >= 2)
 
 # ----------------------------------------------------------------------------
@@ -1206,7 +1235,7 @@ for i in range(min(N // 12, 1200)):
     nstep = rng7.choice([2, 2, 3])
     naming = rng7.choice(['same-name', 'same-name', 'different-names', 'same-object-edited'])
     ff_prev = None
-    jobs, impls, errs_all = [], [], []
+    jobs, impls, errs_all, known_all = [], [], [], []
     for st in range(nstep):
         spec = rng7.choice([gen_case, gen_two_iter, gen_annot, gen_standin])(rng7)
         ffname = 'c14' if naming != 'different-names' else 'c14_%d' % st
@@ -1232,15 +1261,17 @@ for i in range(min(N // 12, 1200)):
         if fresh != impl:
             errs.append('step %d of a history on one processor instance differs from a fresh processor on the same '
                         'molecule (force field named %r, modifications %s)' % (st, ffname, [m.name for m in mods]))
+        errs, known = split_f6(errs, f6_atoms(spec, mol, run))
         errs_all += ['step %d: %s' % (st, e) for e in errs]
+        known_all += ['step %d: %s' % (st, e) for e in known]
         chk.count('history_step_' + ('run_system' if via_system else 'run_molecule'))
     chk.count('history_' + naming)
     hl.append(line('history', jobs))
     hi.append(' || '.join(impls))
-    hm.append(errs_all)
+    hm.append((errs_all, known_all))
 hmodels = chk.drv.ask(hl) if chk.lean_ok else [None] * len(hl)
 for i in range(len(hl)):
-    chk.case('history-%d' % i, hl[i], hi[i], hmodels[i], hm[i], True)
+    case_f6('history-%d' % i, hl[i], hi[i], hmodels[i], hm[i][0], hm[i][1], True)
 
 # ----------------------------------------------------------------------------
 # identify_ptms called directly (the way the test-suite and other callers use it): `annotated=None`, the
@@ -1253,11 +1284,11 @@ def run_identify_direct(spec):
     depth, top_len = [0], [None]
     orig_cover, orig_nx = canmod._cover_graph, canmod.nx
 
-    def cover_wrap(graph, to_cover, fragments):
+    def cover_wrap(graph, to_cover, fragments, *rest, **kw):
         depth[0] += 1
         RecGM.in_cover += 1
         try:
-            out = orig_cover(graph, to_cover, fragments)
+            out = orig_cover(graph, to_cover, fragments, *rest, **kw)
         finally:
             depth[0] -= 1
             RecGM.in_cover -= 1
@@ -1283,6 +1314,8 @@ def run_identify_direct(spec):
             res = 'keyerror ' + enc(sorted(idx for idxs in ptms for idx in idxs[0]))
         except RecursionError:
             res = 'crash-recursion'
+        except Exception as e:  # pylint: disable=broad-except
+            res = 'crash-' + type(e).__name__
     finally:
         canmod._cover_graph, canmod.nx = orig_cover, orig_nx
     given = [[[list(q) for q in sorted(m.items())] for m in gm.placements()] for _, gm in options]
@@ -1316,6 +1349,8 @@ def run_identify_direct(spec):
                     errs.append('identify_ptms returned a cover that leaves atom %d of a group out' % x)
                 elif n_in > 1 and snap[x][2] and not any(annot.get(y) for y in a):
                     errs.append('identify_ptms covered the flagged atom %d %d times' % (x, n_in))
+    elif res.startswith('crash'):
+        errs.append('identify_ptms raised %s' % res)
     elif res.startswith('keyerror'):
         if explained_by_known(snap, sedges, ogroups, annot, mods):
             errs.append('identify_ptms raised KeyError although known modifications explain the groups %s'
